@@ -682,8 +682,10 @@ impl FragmentSpreadExtraction for query::SelectionSet {
             .iter()
             .flat_map(|v| match v {
                 query::Selection::FragmentSpread(f) => vec![f],
-                query::Selection::Field(f) => f.selection_set.get_fragment_spreads(),
-                query::Selection::InlineFragment(f) => f.selection_set.get_fragment_spreads(),
+                query::Selection::Field(f) => f.selection_set.get_recursive_fragment_spreads(),
+                query::Selection::InlineFragment(f) => {
+                    f.selection_set.get_recursive_fragment_spreads()
+                }
             })
             .collect()
     }
